@@ -118,7 +118,7 @@ impl Property for C09 {
         }
         // history: the instance comes out of an earlier penalty-method pipeline (stale records of the
         // first application are still attached to restored constraints)
-        if k % 6 == 4 {
+        if (k / 16) % 6 == 4 {
             match history_instance(rng, &inst) {
                 Some(i3) => {
                     inst = i3;
